@@ -239,6 +239,57 @@ def process(rec, payload, workdir, idx):
     return n
 
 
+def process_frame(rec, payload, workdir, idx):
+    """C04 on the Fortran engine: solving period t through FortranEngine changes nothing but the cells the equations assign
+    at t (and status / iterations at t) - whatever the data, non-finite inputs and errors='replace' included."""
+    seed = payload.get('seed', 0)
+    rng = random.Random(seed * 7 + idx)
+    names = R.NAME_MAPS[payload.get('namemap', 'plain')]
+    script = R.render_program(rec['stmts'], names, 'canon')
+    symbols = parse(script)
+    Py = fsic.build_model(symbols)
+    try:
+        engine = fortran_shim.compile_fortran(build_fortran_definition(symbols), workdir, f'frame{idx}')
+    except Exception:
+        return 0        # whether the source compiles is C07's subject
+
+    class F(FortranEngine, Py):
+        ENGINE = engine
+
+    all_names = list(Py.NAMES)
+    endo = set(Py.ENDOGENOUS)
+    others = [nm for nm in all_names if nm not in endo]
+    lags, leads = Py.LAGS, Py.LEADS
+    L = lags + leads + 3
+    span = range(2000, 2000 + L)
+    writes = {(names[s_['lhs']['n'] - 1], s_['lhs']['k']) for s_ in rec['stmts']}
+    n = 0
+    for p in range(lags, L - leads):
+        for errors in ('replace', 'ignore', 'skip'):
+            for cls_name, cls in (('fortran', F), ('python', Py)):
+                m = cls(span)
+                table = data_table(all_names, L, 3, seed + p)
+                fill(m, all_names, table)
+                if others:
+                    m.__dict__['_' + rng.choice(others)][p] = np.nan      # a non-finite input of the period being solved
+                before = {k_: v.copy() for k_, v in state(m).items()}
+                outcome(lambda: m.solve_t(p, max_iter=3, failures='ignore', errors=errors))
+                after = state(m)
+                n += 1
+                for k_ in before:
+                    b, a = before[k_], after[k_]
+                    for q in range(L):
+                        same = (b[q] == a[q]) or (b.dtype.kind == 'f' and np.isnan(b[q]) and np.isnan(a[q]))
+                        if same:
+                            continue
+                        allowed = (k_ in ('status', 'iterations') and q == p) or any(k_ == nm and q == p + off for nm, off in writes)
+                        if not allowed:
+                            what = 'non-endogenous-variable' if k_ in others else 'other-period' if q != p else 'other-cell'
+                            raise Mis(f'c04-{cls_name}-engine-changed-{what}', script=script, t=p, errors=errors, variable=k_, position=q,
+                                      before=repr(b[q]), after=repr(a[q]))
+    return n
+
+
 def long_programs(seed):
     """Synthetic long programs (continuation lines, dozens of variables) expressed as Script.tla records."""
     rng = random.Random(seed)
@@ -272,7 +323,7 @@ def main():
             continue
         out['distinct'] += 1
         try:
-            out['n'] += process(rec, payload, workdir, payload.get('base', 0) + idx)
+            out['n'] += (process_frame if payload.get('mode') == 'frame' else process)(rec, payload, workdir, payload.get('base', 0) + idx)
             out['nontrivial'] += 1
             out['compiled'] += 1
         except Mis as m:
